@@ -18,7 +18,7 @@ theorem decFields_cons (f : Spec) (fs : List Spec) (r : Rd) (acc : Record) :
       match lookupElem f.ent f.id with
       | none => (.error .unknownElem, r)
       | some (fid, t) =>
-        match dataLen r f.len t with
+        match dataLen r f.len with
         | (.error e, r1) => (.error e, r1)
         | (.ok n, r1) =>
           match r1.readN n with
